@@ -274,3 +274,39 @@ Proof.
   - destruct (is_file st q); [reflexivity|]. destruct (is_dir st q); reflexivity.
   - destruct (is_file st q); [reflexivity|]. destruct (is_dir st q); reflexivity.
 Qed.
+
+(* open(p, "wb"); write(b); close()  on a path whose directory exists *)
+Lemma write_file_run e st p b :
+  is_dir st p = false -> is_dir st (parent p) = true ->
+  apply_ops e st [OpenTrunc p; Append p b; Close p] = mkfs (fset p b (fset p [] (files st))) (dirs st)
+  /\ errs_of e st [OpenTrunc p; Append p b; Close p] = [None; None; None].
+Proof.
+  intros Hd Hp.
+  assert (O : apply_op e st (OpenTrunc p) = inl (mkfs (fset p [] (files st)) (dirs st)))
+    by (cbn [apply_op]; rewrite Hd, Hp; reflexivity).
+  set (st1 := mkfs (fset p [] (files st)) (dirs st)).
+  assert (A : apply_op e st1 (Append p b) = inl (mkfs (fset p b (fset p [] (files st))) (dirs st)))
+    by (cbn [apply_op]; unfold st1; cbn [files dirs]; rewrite fget_fset_eq; reflexivity).
+  set (st2 := mkfs (fset p b (fset p [] (files st))) (dirs st)).
+  assert (C : apply_op e st2 (Close p) = inl st2)
+    by (cbn [apply_op]; unfold is_file, st2; cbn [files]; rewrite fget_fset_eq; reflexivity).
+  cbn [apply_ops errs_of]. unfold step, op_err. rewrite O. fold st1. rewrite A. fold st2. rewrite C.
+  split; reflexivity.
+Qed.
+
+Lemma write_file_get p b l q :
+  fget q (fset p b (fset p [] l)) = if path_eqb q p then Some b else fget q l.
+Proof.
+  destruct (path_eqb q p) eqn:E.
+  - apply path_eqb_eq in E. subst q. apply fget_fset_eq.
+  - apply path_eqb_neq in E. rewrite !fget_fset_neq by exact E. reflexivity.
+Qed.
+
+(* open(p, "wb") on a path whose directory is missing: ENOENT, nothing changes *)
+Lemma open_missing_dir e st p :
+  is_dir st p = false -> is_dir st (parent p) = false ->
+  step e st (OpenTrunc p) = st /\ op_err e st (OpenTrunc p) = Some ENOENT.
+Proof. intros Hd Hp. unfold step, op_err. cbn [apply_op]. rewrite Hd, Hp. split; reflexivity. Qed.
+
+Lemma ops_of_crash_nil pre : crash_of [] pre -> pre = [].
+Proof. inversion 1; reflexivity. Qed.
